@@ -121,7 +121,7 @@ EXPLANATION = (
     '(Python\'s parser rejects => rejected, with an own Error class), brace_error_own (only the module\'s own Error classes: asserts, int() ValueError, '
     '_printable_prefix AttributeError, the termination device unreachable), flat_formats_partial (flat fields, no field with "," + b/c/o/x/X or sign/# + c: '
     'str.format succeeds for EVERY argument object with a value of a reported type under every reported position/name; an int being a code point), '
-    'quirk_rejected (conversely, an accepted flat string with such a field cannot be formatted whatever the arguments: the restriction is exact), '
+    'matches_exists (every accepted string has arguments of the reported shape: keys distinct, one non-empty type set per key), quirk_rejected (conversely, an accepted flat string with such a field cannot be formatted whatever the arguments: the restriction is exact), '
     'flat_formats_refuted + witness_accepted/witness_flat/witness_rejected ({:,x} is accepted with type int and str.format fails whatever the type: the '
     'formatting clause is false as stated; open findings accept:comma-with-bcoxX and accept:sign-or-alt-with-c, pinned by the repository\'s own tests). Pins: '
     'constants_pin, regex_pin, probes_pin (kernel evaluation of the models on ~620 probes). Test level only: "time linear in the length" for the '
